@@ -122,6 +122,9 @@ impl ProtocolState {
         &&& self.wf_alloc()
         &&& self.wf_pending()
         &&& self.wf_slow_start()
+        // W10/W11: per-connection data exists in the states that read it
+        &&& ((self.state == ProtocolStateType::Connected || self.state == ProtocolStateType::PendingDisconnect) ==> self.current_settings is Some)
+        &&& (self.state == ProtocolStateType::PendingConnack ==> self.connack_timeout_timepoint is Some)
     }
 
     // W5 (kept separate: see finding F-TIMEOUT-CURRENT)
